@@ -551,6 +551,18 @@ def rule_marker_handling(ctx: Ctx, rule: str) -> None:
               c.args and isinstance(c.args[0], ast.Constant) and c.args[0].value == '(?#)']
     ok2 = len(strips) == 1 and q.guarded(strips[0], 'self.capture', 'T') and norm_src(strips[0].args[1]) == "''"
     ctx.ob(rule, f'{WP}:WcParse._parse/marker-strip', ok2, repo.loc(WP, pr.node), "if self.capture: pattern = pattern.replace('(?#)', '')", str(ok2))
+    # who may touch the marker at all: the rest-of-pattern rewrite and the final strip; anything else removes captures that translate owes
+    from .common import pinned_writers  # noqa: F401  (same idea: attribute the site to the pinned method that owns it)
+    sites = {}
+    for fi in repo.cls(WP, 'WcParse').methods.values():
+        for c in walk_no_nested(fi.node):
+            if isinstance(c, ast.Call) and isinstance(c.func, ast.Attribute) and c.func.attr in ('replace', 'sub', 'subn') and \
+                    any(isinstance(a, ast.Constant) and isinstance(a.value, str) and '(?#)' in a.value for a in c.args):
+                sites.setdefault(fi.name, []).append(norm_src(c.args[1]) if len(c.args) > 1 else '?')
+    want_sites = {'clean_up_inverse': ["'?:'"], '_parse': ["''"]}
+    ctx.ob(rule, f'{WP}:WcParse/marker-rewrite-sites', sites == want_sites, repo.loc(WP, repo.cls(WP, 'WcParse').node),
+           "the marker is rewritten to '?:' only for the rest-of-pattern inside a closing `!(..)` (clean_up_inverse) and stripped only in _parse", str(sites),
+           witness="fnmatch.translate('!(@(a)|b)c', EXTMATCH) must keep one capturing group per extended group, also for groups nested in `!(..)`")
     env = repo.mod(WP).env
     bad = [k for k, v in env.items() if isinstance(v, str) and '(?#)' in v and not (v.startswith('((?#)') and v.count('(?#)') == 1)]
     n = sum(1 for v in env.values() if isinstance(v, str) and '(?#)' in v)
